@@ -9,7 +9,7 @@
    and are therefore decided at the code level by the correspondence/oracle only. *)
 From PG Require Import Common.Tactics Model.Geno Model.Evo Model.EvoOps
   Proofs.GenoConcrete Proofs.EvoBase Proofs.EvoSel Proofs.EvoComp Proofs.EvoMut Proofs.EvoSwap Proofs.EvoSeg Proofs.EvoPw Proofs.EvoRec
-  Proofs.EvoPwTotal Proofs.EvoPermSmall Proofs.EvoSelExpr Proofs.EvoExamples.
+  Proofs.GenoExact Proofs.EvoMutTotal Proofs.EvoPwTotal Proofs.EvoPermSmall Proofs.EvoSelExpr Proofs.EvoExamples.
 
 (* the contract assumed of random.Random is satisfiable *)
 Theorem C14_rng_contract_inhabited : rng_ok first_rng.
@@ -49,6 +49,14 @@ Proof.
   split; auto. destruct (bind_complete q s d' Hwf Hv') as (b & Hb & _ & Ha). eauto.
 Qed.
 Print Assumptions C14_mutator_closed_uniform.
+
+(* ... and it always returns one when the DNA has a node it may mutate (no custom decision points: their
+   random_dna_fn is user code): 'Immutable DNA' is the only way Uniform mutation refuses a valid DNA *)
+Theorem C14_mutator_uniform_total : forall R (G : rng R) wh, rng_ok G -> forall s d r, nocustom s = true -> valid s d = true ->
+  (cnt_space wh s true d = 0 -> mutate_uniform R G wh s d r = Err ERuntime) /\
+  (0 < cnt_space wh s true d -> exists d' r', mutate_uniform R G wh s d r = Ok (d', r')).
+Proof. exact mutate_uniform_total. Qed.
+Print Assumptions C14_mutator_uniform_total.
 
 Theorem C14_mutator_closed_swap : forall R (G : rng R) wh q s d r d' r',
   wf s = true -> valid s d = true -> mutate_swap R G wh s d r = Ok (d', r') ->
